@@ -68,13 +68,16 @@ def source_arrays(src, k, rng):
     elif rel == 'beyond':
         kk = kk * (1.0 + 2.5e-5)
     elif rel == 'onepoint':
-        i = int(rng.integers(0, m))
+        # ONE value beyond numpy's allclose tolerance (1e-8 + 1e-5 |k_i|): at the lowest wavenumbers that is a tiny absolute
+        # difference, at the highest a large one; by a factor 3 of the tolerance or grossly
+        i = int(rng.choice([0, 1, int(rng.integers(0, m)), m - 1])) % m
         kk = np.array(kk)
-        kk[i] *= (1.0 + 1e-3)
+        kk[i] = kk[i] * (1.0 + float(rng.choice([3e-5, 1e-3]))) + 3e-8
     elif rel == 'rescaled':
         kk = kk * 1.01
     elif rel == 'shifted':
-        kk = kk + 0.5 * dk
+        # half a grid spacing, or a uniform shift just beyond the tolerance at the lowest wavenumber (far within it at the highest)
+        kk = kk + (0.5 * dk if rng.random() < 0.5 else 3e-5 * kk[0] + 3e-8)
     elif rel == 'nan':
         kk = np.array(kk)
         kk[int(rng.integers(0, m))] = np.nan
